@@ -272,6 +272,8 @@ class Interp:
             n_bind = sum(1 for n in ast.walk(m.tree) if (isinstance(n, ast.Name) and n.id == name and isinstance(n.ctx, (ast.Store, ast.Del))) or (isinstance(n, ast.Global) and name in n.names))
             if n_bind == 1:
                 stub = FuncInfo(f"{m.name}:<module>", m, ast.parse("def _m(): pass").body[0])
+                if isinstance(val, ast.Call) and ast.unparse(val.func).split(".")[-1] in ("MappingProxyType", "dict", "frozendict") and len(val.args) == 1 and not val.keywords and isinstance(val.args[0], ast.Dict):
+                    val = val.args[0]  # a read-only / copied view of a dict display is that table
                 if isinstance(val, ast.Constant) and (val.value is None or isinstance(val.value, (bool, int, float, str))):
                     cache[ck] = ("c", val.value)
                 elif isinstance(val, ast.Attribute):
@@ -425,6 +427,15 @@ class Interp:
                             return val
                 if base is not None and base[0] == "e" and e.attr in ("value", "name"):
                     return base
+            return None
+        if isinstance(e, ast.Subscript):
+            # `TABLE[key]` on a constant dispatch table with a known key
+            tab = self.ev(e.value, env, cfg)
+            key = self.ev(e.slice, env, cfg)
+            if tab is not None and tab[0] == "d" and key is not None and key[0] in ("c", "e"):
+                for k, v in tab[1]:
+                    if k == key:
+                        return v
             return None
         if isinstance(e, ast.Tuple):
             return ("t", tuple(self.ev(x, env, cfg) for x in e.elts))
